@@ -12,7 +12,12 @@ EXTRA_MODULES = [("SLV.Props.FloatSpecials", "F"), ("SLV.Props.Guards", "Guards_
 RULE = ("simplex_new / opinion_new / bsimplex_new / bop_new through try_new, new, TryFrom tuples and into_opinion: well-formed dyadic "
         "and float tuples; each constraint violated singly (±k ulps k=0..8 around 0 and 1 for every component and for the sums, and by "
         "visible margins) and jointly; NaN, ±inf, -0.0, subnormals; n=1..4; families A/M/D/N; f32+f64; each tuple is run through "
-        "try_new AND new (cross-case: new panics iff try_new errs). non-trivial = distinct tuple, accepted or rejected")
+        "try_new AND new (cross-case: new panics iff try_new errs). Every accepted simplex / opinion also reports is_vacuous / "
+        "is_dogmatic through each borrowed view (as_ref, OpinionRef::from(&w), OpinionRef::from((&simplex,&base_rate))) and through "
+        "the views' round trips (cloned, into_opinion), which must answer as the owner and store the same numbers; a dedicated "
+        "stream puts the uncertainty within a few ulps of 0 and of 1 (k*eps/2, subnormals, -eps/2, 1-k*eps/2, 1+k*eps) in every "
+        "family and entry point. opinion_new also over 2-D / 3-D containers (families M2/M3/D2/D3/N2/N3, shapes 1x2..2x2x3, cells "
+        "read through the index operator). non-trivial = distinct tuple, accepted or rejected")
 EXHAUSTIVE = {}
 CROSS_GROUPS = [0]
 LEVEL_TEXT = ("Kernel-checked iff-characterisation of acceptance for every n and every extended-rational tuple (finite, ±inf, NaN): "
@@ -63,11 +68,56 @@ def tuple_case(rng, fmt, n, hasA):
     return vals
 
 
+def edge_u_tuple(rng, fmt, n, hasA):
+    """accepted tuples whose uncertainty sits within a few ulps of 0 or of 1: inside the predicates' tolerance bands and just outside"""
+    e = G.EPS[fmt]
+    tiny = 2.0 ** -1074 if fmt == "f64" else 2.0 ** -149
+    den = rng.choice([4, 8, 16])
+    if rng.random() < 0.5:
+        u = rng.choice([1.0 - k * e / 2 for k in range(0, 9)] + [1.0 + e, 1.0 + 2 * e, 1.0 + 4 * e])
+        b = [0.0] * n
+        if u < 1.0:
+            b[rng.randrange(n)] = 1.0 - u          # exact: a multiple of eps/2
+    else:
+        u = rng.choice([k * e / 2 for k in range(0, 7)] + [tiny, 2 * tiny, e * e, -e / 2, -e, 1e-30])
+        b = [float(x) for x in G.rand_simplex(rng, n, den, "dog")[0]]
+    return b + [u] + ([float(x) for x in G.rand_dist(rng, n, den)] if hasA else [])
+
+
 def cases(rng, tier):
     CROSS_GROUPS[0] = 0
     out = []
     for fmt in ("f64", "f32"):
         N = 1500 if tier == "quick" else 40000
+        # uncertainty within a few ulps of 0 / 1, through every family and entry point (predicates on borrowed views)
+        for _ in range(N // 8):
+            gid = CROSS_GROUPS[0]; CROSS_GROUPS[0] += 1
+            r = rng.random()
+            if r < 0.3:
+                fam, sh, n = G.nd_family(rng, 8)
+                vals = edge_u_tuple(rng, fmt, n, True)
+                for k, ent in enumerate(("try", "new")):
+                    out.append((G.line("opinion_new", fmt, "%s.o.%s" % (fam, ent), [n] + sh, vals), ("tn", gid, k)))
+                continue
+            n = rng.choice([1, 2, 3, 4])
+            fam = rng.choice(G.FAMS_1D)
+            if r < 0.5:
+                vals = edge_u_tuple(rng, fmt, n, False)
+                ents = ["try", "new"] + (["tf"] if fam in ("A", "D", "N") else [])
+                for k, ent in enumerate(ents):
+                    out.append((G.line("simplex_new", fmt, "%s.o.%s" % (fam, ent), [n], vals), ("tn", gid, k)))
+            else:
+                vals = edge_u_tuple(rng, fmt, n, True)
+                ents = ["try", "new"] + (["tf"] if fam in ("A", "D", "N") else []) + (["up"] if fam == "A" else [])
+                for k, ent in enumerate(ents):
+                    out.append((G.line("opinion_new", fmt, "%s.o.%s" % (fam, ent), [n], vals), ("tn", gid, k)))
+        # checked constructors over 2-D / 3-D containers
+        for _ in range(N // 8):
+            gid = CROSS_GROUPS[0]; CROSS_GROUPS[0] += 1
+            fam, sh, n = G.nd_family(rng)
+            vals = tuple_case(rng, fmt, n, True)
+            for k, ent in enumerate(("try", "new")):
+                out.append((G.line("opinion_new", fmt, "%s.o.%s" % (fam, ent), [n] + sh, vals), ("tn", gid, k)))
         for _ in range(N):
             r = rng.random()
             gid = CROSS_GROUPS[0]; CROSS_GROUPS[0] += 1
